@@ -227,6 +227,13 @@ class Ops:
         q = a.q and b.q and not bad_c and not err
         s = a.s and b.s and not bad_c and not err
         z = a.z and b.z and not bad_c and not err
+        if opname != "cmp" and p and not (a.is_py and b.is_py):
+            for x_ in (a, b):
+                if x_.is_py and x_.gen and "loop-index" in x_.origin:
+                    # `(i + 1) * f(row_i)`: the position of a row enters the value
+                    p = False
+                    self.clear("p", f"the position a loop over the rows is at is used as a number ({opname})", node)
+                    break
         if bad_p:
             self.clear("p", f"row-indexed axis combined element-wise with a position-indexed axis ({opname})", node)
         if bad_c:
